@@ -274,11 +274,17 @@ Ltac arg := first [ rewrite eval_fresh | rewrite eval_str | rewrite eval_bool
                   | (rewrite eval_var; env_fact; try use_fact) ]; cbv iota beta.
 Ltac step_run := match goal with |- context [run builders ?o ?K ?en ?fr ?bd] => vm_step (run builders o K en fr bd) end; cbv iota beta.
 
-Theorem aq_attributes_any reqid issuer sp e f g s u n (cs : list dcustom) (qs : list dval) id1 id2 rest issue until :
+Theorem aq_all_any reqid issuer sp e f g s u n (cs : list dcustom) (qs : list dval) id1 id2 rest issue until :
   Forall wf_attr qs ->
   built_sat "makeAttributeQueryResponse" None
     [DStr reqid; DStr issuer; DStr sp; attributes_rec e f g s u n (map custom_dpair cs); DList qs; DStr (b "f"); DNil] (id1 :: id2 :: rest) issue until
     (fun d r => r = rest /\
+       at_ d ["InResponseTo"] = Some (DStr reqid) /\ dget d (sc_data ++ [PField "InResponseTo"]) = Some (DStr reqid) /\
+       at_ d ["Destination"] = None /\ dget d (sc_data ++ [PField "Recipient"]) = None /\
+       at_ d ["Issuer"; "Text"] = Some (DStr issuer) /\ at_ d ["Assertion"; "Issuer"; "Text"] = Some (DStr issuer) /\
+       dget d [PField "Assertion"; PField "Conditions"; PField "AudienceRestriction"; PIndex 0; PField "Audience"] = Some (DList [DStr sp]) /\
+       at_ d ["Assertion"; "Subject"; "NameID"; "Text"] = Some (DStr n) /\
+       at_ d ["Assertion"; "AuthnStatement"] = None /\
        dget d [PField "Assertion"; PField "AttributeStatement"; PIndex 0; PField "Attribute"] =
        Some (DList (dfilter qs (std_attr "Email" e ++ std_attr "SurName" s ++ std_attr "FirstName" g ++ std_attr "FullName" f ++
                                 std_attr "UserName" n ++ std_attr "UserID" u ++ map custom_dattr cs)))).
@@ -321,5 +327,18 @@ Proof.
   arg. env_fact. cbv iota beta.
   match goal with |- context [set_path ?a ?p ?d] => vm_step (set_path a p d) end. cbv iota beta.
   rewrite run_st_cons', exec_return. cbn [s_env s_fresh]. arg.
-  split; [reflexivity|vm_compute; reflexivity].
+  repeat split; vm_compute; reflexivity.
+Qed.
+
+Corollary aq_attributes_any reqid issuer sp e f g s u n (cs : list dcustom) (qs : list dval) id1 id2 rest issue until :
+  Forall wf_attr qs ->
+  built_sat "makeAttributeQueryResponse" None
+    [DStr reqid; DStr issuer; DStr sp; attributes_rec e f g s u n (map custom_dpair cs); DList qs; DStr (b "f"); DNil] (id1 :: id2 :: rest) issue until
+    (fun d r => r = rest /\
+       dget d [PField "Assertion"; PField "AttributeStatement"; PIndex 0; PField "Attribute"] =
+       Some (DList (dfilter qs (std_attr "Email" e ++ std_attr "SurName" s ++ std_attr "FirstName" g ++ std_attr "FullName" f ++
+                                std_attr "UserName" n ++ std_attr "UserID" u ++ map custom_dattr cs)))).
+Proof.
+  intro W. eapply built_sat_mono; [exact (aq_all_any reqid issuer sp e f g s u n cs qs id1 id2 rest issue until W)|].
+  intros d r (A & _ & _ & _ & _ & _ & _ & _ & _ & _ & B). split; assumption.
 Qed.
